@@ -432,8 +432,15 @@ func (t *WeightedMerkleTrie) Weight() uint64 {
 // Commit collapses the trie to the specified level and returns the batcher and the deleted nodes, it is the caller's responsibility to commit the batch
 func (t *WeightedMerkleTrie) Commit(collapseLevel int) (storage.Batcher, error) {
 	batcher := t.db.NewBatch()
+	mutated := t.pending
 	t.pending = false
 	if !t.root.Dirty() {
+		if mutated {
+			// the changes since the last commit left nothing to write (they emptied the trie): this commit
+			// created no nodes. Keeping the previous commit's list would make a rollback of this commit
+			// delete the nodes of the state it rolls back to
+			t.created, t.written = nil, nil
+		}
 		return batcher, nil
 	}
 	root, ok := t.root.(*routingNode)
